@@ -282,7 +282,10 @@ class ScriptProc(CompartmentedModel):
                 self.log.append("post=ValueError")
         elif op == 'UNPOST':
             try:
+                CURRENT.pop('last_unpost', None)
                 r = self.unpostEvent(a[1], bool(a[2])); self.log.append("unpost=None" if r is None else f"unpost={bits(r)}")
+                if 'last_unpost' in CURRENT and CURRENT['last_unpost'] != r and CURRENT.get('qviol'):
+                    CURRENT['qviol'](f"Process.unpostEvent({a[1]}) returned {r}, the dynamics' unpostEvent returned {CURRENT['last_unpost']}")
             except KeyError:
                 self.log.append("unpost=KeyError")
         elif op == 'PENDING':
@@ -645,6 +648,7 @@ def run_case(case):
     def qviol(msg):
         if not qv:
             qv.append(msg); info['oracle'].append(('queue', msg))
+    CURRENT['qviol'] = qviol
 
     def check_skipped(upto=None):
         """C05/C06: a chosen event that is passed over must have left its locus by its turn"""
@@ -820,6 +824,7 @@ def run_case(case):
                 if id in ref: qviol(f"unpostEvent({id}) raised KeyError but the event is pending for {ref[id][0]}")
                 elif not fatal: qviol(f"unpostEvent({id}, fatal=False) raised KeyError")
                 raise
+            CURRENT['last_unpost'] = r
             if id in ref:
                 if r != ref[id][0]: qviol(f"unpostEvent({id}) returned {r}, the event was due at {ref[id][0]}")
                 del ref[id]
